@@ -18,8 +18,8 @@ func v1Res(v *drive.V1, f func() (jd1.JsonNode, error)) (jd1.JsonNode, drive.Res
 		if err != nil {
 			return drive.Res{St: "err", Msg: err.Error()}
 		}
-		out = x
 		n := v.Project(x)
+		out = x
 		return drive.Res{St: "ok", Doc: &n}
 	})
 	return out, r
@@ -70,6 +70,17 @@ func driveV1(p *Plan, shard int, w *Writer, t *codec.Table) {
 		var eab bool
 		re := drive.Guard(func() drive.Res { x, y := fresh(); eab = x.Equals(y, md...); return drive.Res{St: "ok"} })
 		w.Emit(shard, Rec{"sess": id, "op": "EqualsAB", "res": drive.Res{St: re.St, Bool: &eab}})
+		// the statement once more on one set of live values: Patch on the very a the diff was computed from
+		var seq bool
+		_, sres := v1Res(v, func() (jd1.JsonNode, error) {
+			x, y := fresh()
+			p, err := x.Patch(x.Diff(y, md...))
+			if err == nil {
+				seq = p.Equals(y, md...)
+			}
+			return p, err
+		})
+		w.Emit(shard, Rec{"sess": id, "op": "Same", "res": sres, "eq": seq})
 		// native text round trip
 		trip := func(op string, render func(jd1.Diff) (string, error), read func(string) (jd1.Diff, error)) {
 			var text string
